@@ -130,6 +130,33 @@ func TestD17RowsOffHeap(t *testing.T) {
 	}
 }
 
+// ---- D21 (C12) ----
+func TestD21TransposedMatrixIsFinalized(t *testing.T) {
+	dir := t.TempDir()
+	t.Setenv("TMPDIR", dir)
+	base := len(csmMappings())
+	func() {
+		m := sparse.NewCSRMatrix(2, 2, []sparse.CooEntry{{Row: 0, Column: 1, Value: 1}}, false)
+		mt, err := m.Transpose(context.Background())
+		if err != nil {
+			t.Fatal(err)
+		}
+		if err := mt.Mmap(context.Background()); err != nil {
+			t.Fatal(err)
+		}
+		if n := len(csmMappings()); n != base+1 {
+			t.Fatalf("want %d mappings, have %d", base+1, n)
+		}
+	}()
+	for i := 0; i < 300 && len(csmMappings()) > base; i++ {
+		runtime.GC()
+		time.Sleep(time.Millisecond)
+	}
+	if n := len(csmMappings()); n != base {
+		t.Fatalf("mapping of an unreachable transposed matrix is never released (%d left)", n-base)
+	}
+}
+
 // ---- D4 (C07) ----
 type roleCtx struct {
 	context.Context
